@@ -2,7 +2,8 @@
    chunking of peewee.py): the definitions regenerated from /repo's current source by
    translate/k_commit.py are extensionally the hand-written model the theorems of C06 and
    C18 are about.  A changed threshold, age, comparison, operand order, a dropped `if`, a
-   method that no longer calls commit()/conditional_commit(k) (or calls it with another k)
+   method that no longer calls commit()/conditional_commit(k) (or calls it with another k),
+   an insert_many that commits per upsert or whose upsert loop is outside the try
    makes one of these lemmas fail. *)
 From AwVerif Require Import Base.Prelude Model.Commit Gen.GenCommit.
 From Coq Require Import ZifyBool.
@@ -26,13 +27,36 @@ Proof.
 Qed.
 Print Assumptions bridge_cond_commit.
 
+Lemma gen_upserts : forall ups, flat_map (fun u => gen_script__replace u) ups = flat_map script__replace ups.
+Proof.
+  induction ups as [|u ups IH]; [reflexivity|]. cbn [flat_map]. rewrite IH. reflexivity.
+Qed.
+
 Lemma bridge_expand : forall o, gen_expand o = expand o.
 Proof.
   intros o. destruct o; try reflexivity;
     (* scripts that end with a stuck list: the generated text has a trailing `++ []` *)
-    try (cbv [gen_expand gen_script_insert_many_failed expand]; rewrite ?app_nil_r; reflexivity).
+    cbv [gen_expand gen_script_insert_many gen_script_insert_many_failed expand];
+    rewrite gen_upserts, ?app_nil_r; reflexivity.
 Qed.
 Print Assumptions bridge_expand.
+
+(* insert_many when a statement of its upsert loop raises (since a00ceb1 the loop is inside
+   the try): the path read off the source - the upserts that ran, then the conditional_commit
+   of the finally clause counting the whole list - is the model's [InsertManyFailed ups []
+   rest] (rest = the upserts that did not run + the rows) without its empty bulk statement. *)
+Lemma bridge_expand_upsert_failed : forall ups rest_ups nrows,
+  exists pre k,
+    gen_script_insert_many_upsert_failed ups rest_ups nrows = pre ++ [CondCommit k] /\
+    expand (InsertManyFailed ups [] (rest_ups + nrows)) = pre ++ [ExecMany []; CondCommit k].
+Proof.
+  intros ups rest_ups nrows.
+  exists (flat_map script__replace ups), (Z.of_nat (length ups + (length (@nil Z) + (rest_ups + nrows)))).
+  split; [|reflexivity].
+  cbv [gen_script_insert_many_upsert_failed]. rewrite gen_upserts, app_nil_r.
+  do 3 f_equal. cbn [length]. lia.
+Qed.
+Print Assumptions bridge_expand_upsert_failed.
 
 Lemma bridge_init : forall c0 t0, n_unc (init c0 t0) = gen_init_n /\ pending (init c0 t0) = [].
 Proof. intros. split; reflexivity. Qed.
